@@ -753,7 +753,11 @@ func (n *Node) unRefExternal() {
 	if atomic.AddInt32(&n.ref, -1) == 0 {
 		n.r.mu.RLock()
 		if n.r.closed {
-			n.callFinalizer()
+			// A Get that was in flight when the cache got closed may have
+			// taken a new handle to this node meanwhile.
+			if atomic.LoadInt32(&n.ref) == 0 {
+				n.callFinalizer()
+			}
 		} else {
 			n.r.delete(n)
 			atomic.AddInt64(&n.r.statDel, 1)
